@@ -23,7 +23,7 @@ CHECKS = {
     "C03": dict(
         category="model_checking",
         technique="exhaustive walk of a finite configuration lattice (h, r, declaration order) on the real evaluator and the public fuzz API",
-        text="Every configuration 0..12 x 0..12 (thorough 0..40 x 0..40) of h hard constraints and r computed repetitions in 3 declaration orders, with repetition counts 2 and 0 (zero iterations; h, r <= 6), plus one comparison constraint matching m = 1..32 (thorough 80) places of the witness next to 0/1/3 further constraints, plus the (h, r) question asked again of one spec object after an earlier search with extra constraints, plus 108 constraint forms with their witnesses (any/all/exists/forall over m matches of which only the last or the first satisfies, connectives whose first operand fails, nested quantifiers; eager and lazy compilation; evaluator and API parse), is built as a real spec; an independently confirmed satisfying tree must be yielded by the real Evaluator.evaluate_individual on first sight, and for small h + r Fandango.fuzz(initial_population=[witness]) must report a solution.",
+        text="Every configuration 0..16 x 0..16 (thorough 0..40 x 0..40) of h hard constraints and r computed repetitions in 3 declaration orders, with repetition counts 2 and 0 (zero iterations; h, r <= 6), plus one comparison constraint matching m = 1..32 (thorough 80) places of the witness next to 0/1/3 further constraints, plus the (h, r) question asked again of one spec object after an earlier search with extra constraints, plus 108 constraint forms with their witnesses (any/all/exists/forall over m matches of which only the last or the first satisfies, connectives whose first operand fails, nested quantifiers; eager and lazy compilation; evaluator and API parse), is built as a real spec; an independently confirmed satisfying tree must be yielded by the real Evaluator.evaluate_individual on first sight, and for small h + r Fandango.fuzz(initial_population=[witness]) must report a solution.",
         note="The lattice is finite and walked completely; constraints are tautologies / fixed-count repetitions so the witness is known to satisfy them. Rounding defect repaired in /repo (fix commit, see known_findings.json).",
         design="4 C03",
     ),
@@ -37,7 +37,7 @@ CHECKS = {
     "C08": dict(
         category="translation_validation",
         technique="bounded-exhaustive enumeration of Python programs over a construct grammar (small scope), each translated by the real front end and compared with CPython's own AST",
-        text="~4800 (thorough ~20000) programs: every expression constructor (operators, comparisons, boolean, conditional, lambdas with every parameter kind, calls with every argument kind, subscripts/slices, displays, comprehensions, f-strings, literals) with every depth-1 expression in every operand slot, statement constructors nested to block depth 2 (assignments, control flow, try/with, def with every parameter kind, decorators, async, class, imports, match/type/walrus), and the expressions again inside constraints, generators and repetition bounds with a symbol reference. ast.dump of CPython's parse of the text Fandango will execute must equal ast.dump of CPython's parse of the source (constant-only f-strings folded, symbol identifiers renamed) unless Fandango rejects the program. In addition 21 programs whose observable result depends on how code is compiled and run (annotations, evaluation order, scoping, assert, __name__) are executed by Fandango and by CPython and their results compared.",
+        text="~20000 programs (thorough: plus every three-level nesting over a core of 24 operator constructs in every slot): every expression constructor (operators, comparisons, boolean, conditional, lambdas with every parameter kind, calls with every argument kind, subscripts/slices, displays, comprehensions, f-strings, literals) with every depth-1 expression in every operand slot, statement constructors nested to block depth 2 (assignments, control flow, try/with, def with every parameter kind, decorators, async, class, imports, match/type/walrus), and the expressions again inside constraints, generators and repetition bounds with a symbol reference. ast.dump of CPython's parse of the text Fandango will execute must equal ast.dump of CPython's parse of the source (constant-only f-strings folded, symbol identifiers renamed) unless Fandango rejects the program. In addition 21 programs whose observable result depends on how code is compiled and run (annotations, evaluation order, scoping, assert, __name__) are executed by Fandango and by CPython and their results compared.",
         note="Small-scope translation validation, not a proof for all programs. A rejection is never a violation; acceptance rate and rejected constructs are reported. Four defect classes are recorded known findings (identified by the culprit construct), two were repaired.",
         design="4 C08",
     ),
@@ -135,7 +135,7 @@ CHECKS = {
     "C19": dict(
         category="model_checking",
         technique="explicit-state BFS over message histories driving the real forecaster and DerivationTree.append, compared state by state with a reference message-level language",
-        text="For ~440 (thorough ~1300) protocol grammars of operator depth <= 2 over message atoms <A:B:m1>, <B:A:m2>, <A:B:m3> (|, concatenation, ?, *, +, {2}, {1,2}, {2,}, {0,2}, nesting through intermediate symbols, recursion) every history reachable by mounting forecast options (every message type x every mounting path) up to 4 (thorough 6) messages is explored, on the unsliced spec and on the spec sliced to each single party; in every state the predicted (sender, recipient, type) set must equal the letters that extend the history to a prefix of the reference language and complete_trees must be non-empty exactly for full interactions.",
+        text="For ~1300 protocol grammars (plus ~1250, thorough ~2500, sliced specs) of operator depth <= 2 over message atoms <A:B:m1>, <B:A:m2>, <A:B:m3> (|, concatenation, ?, *, +, {2}, {1,2}, {2,}, {0,2}, nesting through intermediate symbols, recursion) every history reachable by mounting forecast options (every message type x every mounting path) up to 5 (thorough 6) messages is explored, on the unsliced spec and on the spec sliced to each single party; in every state the predicted (sender, recipient, type) set must equal the letters that extend the history to a prefix of the reference language and complete_trees must be non-empty exactly for full interactions.",
         note="Messages between two external parties are covered with an erasing projection as reference (grammars where an invisible alternative branch makes that reading ambiguous are skipped there). Specs sliced with slice_parties to {A} and to {B} are judged against the projection to the kept party under either reading of slicing (erase / remove). A forecast that exceeds the parser budget is reported as a cap, not judged. Two deviations are recorded known findings; the slicing defect (wrong node removed) was repaired.",
         design="4 C19",
     ),
